@@ -51,8 +51,27 @@ PwaCases == {[kind |-> "pwa", mesh |-> m, cls |-> c, tgt |-> tk] : m \in DOMAIN 
                tk \in {"pointcloud", "trimesh_same", "trimesh_other"}}
 \* mixed in/out sequences for the failure mask: every mask over a fixed 5-point sequence
 MaskCases == {[kind |-> "mask", mesh |-> m, mask |-> mk, batch |-> b] : m \in {"fan", "quad"}, mk \in [1..5 -> BOOLEAN], b \in {0, 1, 2, 3, 5, 7}}
+\* points an INFINITESIMAL step off the edges and vertices of the triangulation (the adapter takes the step as 2^-40):
+\* p + eps d is inside a triangle iff every barycentric coordinate is positive, or zero with a non-negative derivative along d
+\* ("inputs that differ by less than any fixed tolerance": a containment test must not snap such points onto the mesh)
+GeEps(v, dv) == RLt(Z0, v) \/ (v = Z0 /\ RLe(Z0, dv))
+Decided(v, dv) == v # Z0 \/ dv # Z0                         \* (a coordinate that stays exactly zero is decided by float noise)
+BaryEps(S, t, pp, d) == LET ab == Bary(S, t, pp) ab2 == Bary(S, t, VAdd(pp, d))
+                            da == RSub(ab2[1], ab[1]) db == RSub(ab2[2], ab[2]) IN
+                        << <<ab[1], da>>, <<ab[2], db>>, <<RSub(O1, RAdd(ab[1], ab[2])), RNeg(RAdd(da, db))>> >>
+InsideEps(S, t, pp, d) == \A k \in 1..3 : GeEps(BaryEps(S, t, pp, d)[k][1], BaryEps(S, t, pp, d)[k][2])
+JudgedEps(S, Tris, pp, d) == \A n \in 1..Len(Tris) : \A k \in 1..3 : Decided(BaryEps(S, Tris[n], pp, d)[k][1], BaryEps(S, Tris[n], pp, d)[k][2])
+InDomainEps(S, Tris, pp, d) == \E n \in 1..Len(Tris) : InsideEps(S, Tris[n], pp, d)
+NudgeDirs == {P(1,0), P(-1,0), P(0,1), P(0,-1), P(1,1), P(-1,-1), P(1,-1), P(-1,1), P(2,1), P(-1,-2)}
+OnEdge(S, Tris, pp) == \E n \in 1..Len(Tris) : LET ab == Bary(S, Tris[n], pp) IN Inside(ab) /\ (ab[1] = Z0 \/ ab[2] = Z0 \/ RAdd(ab[1], ab[2]) = O1)
+NudgeSet(m) == LET M == Meshes[m] ins == InPts(M.S, M.tris) IN
+               {<<ins[i], d>> : i \in {j \in 1..Len(ins) : OnEdge(M.S, M.tris, ins[j])}, d \in NudgeDirs}
+RECURSIVE SetToSeqW(_)
+SetToSeqW(X) == IF X = {} THEN <<>> ELSE LET x == CHOOSE y \in X : TRUE IN <<x>> \o SetToSeqW(X \ {x})
+NudgeSeq(m) == LET M == Meshes[m] IN SetToSeqW({x \in NudgeSet(m) : JudgedEps(M.S, M.tris, x[1], x[2])})
+NudgeCases == {[kind |-> "nudge", mesh |-> m, batch |-> b] : m \in {"fan", "quad"}, b \in {0, 1, 3, 7}}
 TpsCases == {[kind |-> "tps", mesh |-> m, kernel |-> k, msv |-> v] : m \in DOMAIN Meshes, k \in {"default", "R2LogR2RBF", "R2LogRRBF"}, v \in {"default", "1e-3"}}
-Cases == (IF "pwa" \in Kinds THEN PwaCases ELSE {}) \cup (IF "mask" \in Kinds THEN MaskCases ELSE {}) \cup (IF "tps" \in Kinds THEN TpsCases ELSE {})
+Cases == (IF "pwa" \in Kinds THEN PwaCases ELSE {}) \cup (IF "mask" \in Kinds THEN MaskCases \cup NudgeCases ELSE {}) \cup (IF "tps" \in Kinds THEN TpsCases ELSE {})
 MaskPts(m, mk) == LET M == Meshes[m] ins == InPts(M.S, M.tris) IN [i \in 1..5 |-> IF mk[i] THEN ins[2*i] ELSE OutPts[((i-1) % 4) + 1]]
 Out(c) ==
   CASE c.kind = "pwa" -> LET M == Meshes[c.mesh] ins == InPts(M.S, M.tris) insT == InPts(M.T, M.tris) IN
@@ -64,6 +83,10 @@ Out(c) ==
          [case |-> c, S |-> M.S, T |-> M.T, tris |-> M.tris, pts |-> ps,
           outmask |-> [i \in 1..5 |-> ~InDomain(M.S, M.tris, ps[i])],
           img |-> [i \in 1..5 |-> IF InDomain(M.S, M.tris, ps[i]) THEN ApplyPWA(M.S, M.T, M.tris, ps[i]) ELSE <<Z0, Z0>>]]
+    [] c.kind = "nudge" -> LET M == Meshes[c.mesh] ns == NudgeSeq(c.mesh) IN
+         [case |-> c, S |-> M.S, T |-> M.T, tris |-> M.tris, pts |-> [i \in 1..Len(ns) |-> ns[i][1]], dirs |-> [i \in 1..Len(ns) |-> ns[i][2]],
+          outmask |-> [i \in 1..Len(ns) |-> ~InDomainEps(M.S, M.tris, ns[i][1], ns[i][2])],
+          img |-> [i \in 1..Len(ns) |-> ApplyPWA(M.S, M.T, M.tris, ns[i][1])]]
     [] c.kind = "tps" -> LET M == Meshes[c.mesh] IN [case |-> c, S |-> M.S, T |-> M.T]
 Init == case \in Cases /\ done = FALSE
 Next == done = FALSE /\ done' = TRUE /\ case' = case /\ CSVWrite("%1$s", <<ToJson(Out(case))>>, IOEnv.OUT_FILE)
